@@ -406,6 +406,10 @@ def atheris_external(tier: str, seed: int, shard: int, nshards: int):
     if tier != "thorough":
         return None
     root = Path(__file__).resolve().parent.parent.parent
+    probe = subprocess.run([sys.executable, "-c", "import atheris"], env=dict(os.environ), capture_output=True)
+    if probe.returncode != 0:
+        # atheris is installed into .deps by tools/setup.sh; without it the Hypothesis engines still decide the property
+        return {"evaluations": 0, "samples": [], "nontrivial_cases": [], "errors": [], "classes": {"atheris-unavailable": 1}}
     work = root / ".work" / f"atheris-c20-{os.getpid()}-{shard}"
     corpus = work / "corpus"
     corpus.mkdir(parents=True, exist_ok=True)
